@@ -160,10 +160,10 @@ func rawInputs(dir string) []Input {
 	// free objects, an unreferenced object, an indirect /Length, stream data starting with LF / ending with CR
 	{
 		d := rawpdf.MarkerDoc([]rawpdf.PageSpec{{Marker: "F-1", Rotate: -1}, {Marker: "F-2", Rotate: -1}}, rawpdf.MarkerOpts{InfoDict: "/Title (free)"})
-		d.Add("")                                  // free
-		d.Add("<< /Unreferenced true >>")          // unreferenced
-		d.Add("")                                  // free
-		ln := d.Add("17")                          // indirect length
+		d.Add("")                                                                                     // free
+		d.Add("<< /Unreferenced true >>")                                                             // unreferenced
+		d.Add("")                                                                                     // free
+		ln := d.Add("17")                                                                             // indirect length
 		d.Add(fmt.Sprintf("<< /Length %d 0 R >>\nstream\n%s\nendstream", ln, "\n% seventeen b.\r\r")) // unreferenced stream
 		add("free", d.Bytes())
 	}
